@@ -107,6 +107,31 @@ def run_item(item):
                 if r is not True:
                     V(m, vt, f"{name}-{r}", f"{name}: a graph that was hashed/compared and then edited ({vt}) vs a freshly built graph "
                                             f"with the same content: == is {r}", m2)
+        # the graph itself is never edited, but graphs derived from it are: it must still equal a freshly built twin
+        if m.bonds and m.atoms:
+            b0 = tuple(next(iter(m.bonds)))
+            newid = max(m.atoms) + 55
+            for dn, fn in (("construct", lambda x: type(x)(x)), ("copy", lambda x: x.copy()),
+                           ("subgraph", lambda x: x.subgraph(list(m.atoms))), ("compose", lambda x: type(x).compose([x])),
+                           ("relabel-copy", lambda x: x.relabel_atoms({}, copy=True))):
+                try:
+                    src = U.build(m)
+                    d = fn(src)
+                    d.remove_bond(*b0)
+                    d.add_atom(newid, "C")
+                    d.add_bond(newid, b0[0])
+                    d.remove_atom(b0[1])
+                except Exception:
+                    oc["derived-edit-raised"] = oc.get("derived-edit-raised", 0) + 1
+                    continue
+                out["distinct"] += 1
+                oc["source-after-derived-edit"] = oc.get("source-after-derived-edit", 0) + 1
+                for name, a, b in (("fwd", g, src), ("rev", src, g)):
+                    r = _eq(a, b)
+                    out["evals"] += 1
+                    if r is not True:
+                        V(m, "source-after-edit-of-" + dn, f"{name}-{r}", f"{name}: after editing a graph derived by {dn}, the untouched "
+                                                                        f"source no longer equals a freshly built twin: == is {r}")
         # second pass: the library's own relabel_atoms
         ids = list(m.atoms)
         if ids:
